@@ -1,0 +1,103 @@
+//go:build verif
+
+package waddrmgr
+
+import (
+	"fmt"
+
+	"github.com/btcsuite/btcd/btcec/v2"
+	"github.com/btcsuite/btcd/btcutil/hdkeychain"
+)
+
+// VerifSecrets aliases every clear-text secret the manager currently holds in
+// memory.  The slices and pointers alias the live buffers (they are NOT
+// copies), so a caller can capture them, lock the manager and then observe
+// whether each buffer has been wiped.  Verification builds only.
+type VerifSecrets struct {
+	// Bytes maps a descriptive name to an alias of a live byte buffer.
+	Bytes map[string][]byte
+
+	// ExtKeys maps a descriptive name to a live extended private key.
+	ExtKeys map[string]*hdkeychain.ExtendedKey
+
+	// CacheKeys maps a descriptive name to a private key held in a
+	// derived-key cache.
+	CacheKeys map[string]*btcec.PrivateKey
+
+	// OtherScripts aliases clear-text witness/taproot scripts, which
+	// Manager.lock does not cover (reported separately).
+	OtherScripts map[string][]byte
+}
+
+// VerifSecretBuffers returns aliases of all clear-text secret buffers that are
+// currently live in the manager and its scoped managers.
+func (m *Manager) VerifSecretBuffers() *VerifSecrets {
+	m.mtx.Lock()
+	defer m.mtx.Unlock()
+
+	out := &VerifSecrets{
+		Bytes:        make(map[string][]byte),
+		ExtKeys:      make(map[string]*hdkeychain.ExtendedKey),
+		CacheKeys:    make(map[string]*btcec.PrivateKey),
+		OtherScripts: make(map[string][]byte),
+	}
+
+	if m.masterKeyPriv != nil && m.masterKeyPriv.Key != nil {
+		out.Bytes["masterKeyPriv"] = m.masterKeyPriv.Key[:]
+	}
+	if ck, ok := m.cryptoKeyPriv.(*cryptoKey); ok {
+		out.Bytes["cryptoKeyPriv"] = ck.CryptoKey[:]
+	}
+	if ck, ok := m.cryptoKeyScript.(*cryptoKey); ok {
+		out.Bytes["cryptoKeyScript"] = ck.CryptoKey[:]
+	}
+	out.Bytes["hashedPrivPassphrase"] = m.hashedPrivPassphrase[:]
+
+	for scope, s := range m.scopedManagers {
+		s.mtx.Lock()
+		for acct, info := range s.acctInfo {
+			if info.acctKeyPriv != nil {
+				name := fmt.Sprintf("acctKeyPriv %v/%d", scope, acct)
+				out.ExtKeys[name] = info.acctKeyPriv
+			}
+		}
+		for _, ma := range s.addrs {
+			name := fmt.Sprintf("%v %s", scope, ma.Address())
+			switch a := ma.(type) {
+			case *managedAddress:
+				a.privKeyMutex.Lock()
+				if a.privKeyCT != nil {
+					out.Bytes["privKeyCT "+name] = a.privKeyCT
+				}
+				a.privKeyMutex.Unlock()
+			case *scriptAddress:
+				a.scriptMutex.Lock()
+				if a.scriptClearText != nil {
+					out.Bytes["scriptCT "+name] = a.scriptClearText
+				}
+				a.scriptMutex.Unlock()
+			case *witnessScriptAddress:
+				a.scriptMutex.Lock()
+				if a.scriptClearText != nil {
+					out.OtherScripts["witnessScriptCT "+name] = a.scriptClearText
+				}
+				a.scriptMutex.Unlock()
+			case *taprootScriptAddress:
+				a.scriptMutex.Lock()
+				if a.scriptClearText != nil {
+					out.OtherScripts["taprootScriptCT "+name] = a.scriptClearText
+				}
+				a.scriptMutex.Unlock()
+			}
+		}
+		s.privKeyCache.Range(func(kp DerivationPath, k *cachedKey) bool {
+			name := fmt.Sprintf("privKeyCache %v %d/%d/%d", scope,
+				kp.InternalAccount, kp.Branch, kp.Index)
+			out.CacheKeys[name] = &k.key
+			return true
+		})
+		s.mtx.Unlock()
+	}
+
+	return out
+}
